@@ -20,7 +20,6 @@ abbrev Str := List Char
 /-- Exception classes the hint machinery can raise. -/
 inductive Err
   | valueError   -- `print_fail`
-  | typeError    -- `max` on two champions opened on the same line (tuples tie, `HintBuffer`s are unordered)
   | indexError   -- `lines[0]` on an empty list in `centrifugate_hints`
   deriving DecidableEq, Repr, Inhabited
 
@@ -98,15 +97,15 @@ def m14 : Str := m13 ++ [' ']
 def dots3 : Str := ['.', '.', '.']
 def ell : Char := '…'
 
-/-- `regex.compile(r"\s*# paroxython: (.+)").match(line)[1]` for a line without `\n`:
-the greedy `\s*` cannot give back anything useful (`#` is not white space), `.+` needs one
-character and takes the rest of the line. -/
+/-- `regex.compile(r"\s*# paroxython:(?: (.*))?$").match(line)` and then `m[1] or ""`, for a line
+without `\n`: after the white space and the marker comes either the end of the line, or a space and
+the rest of the line (possibly empty); anything else is not an isolated hint. -/
 def isolatedRest (line : Str) : Option Str :=
   let r := line.dropWhile isSpaceRe
-  if m14.isPrefixOf r then
-    match r.drop 14 with
-    | [] => none
-    | rest => some rest
+  if m13.isPrefixOf r then
+    match r.drop 13 with
+    | [] => some []
+    | c :: rest => if c = ' ' then some rest else none
   else none
 
 /-- What precedes the label in `^((?:-|\+|\.\.\.|…)?)(\w.*?)((?:\.\.\.|…)?)$`. -/
@@ -186,7 +185,7 @@ def centLines (hs : List Str) : List Str → List Str
 
 def centrifugate (src : Str) : Except Err Str :=
   let p := scanIsolated (splitNL src)
-  if p.2 = [] then .ok src
+  if p.2 = [] then .ok (joinNL p.1)
   else match p.1 with
     | [] => .error .indexError
     | ls => .ok (joinNL (centLines (sortDedup p.2) ls))
@@ -239,10 +238,9 @@ def stepEv (i : Nat) (st : Bufs) (t : Tok) : Except Err Bufs :=
     | none, none => .error .valueError           -- "Unmatched closing hint"
     | some x, none => .ok { st with add := st.add.close t.label x i }
     | none, some y => .ok { st with del := st.del.close t.label y i }
-    | some x, some y =>
-      if y < x then .ok { st with add := st.add.close t.label x i }
-      else if x < y then .ok { st with del := st.del.close t.label y i }
-      else .error .typeError                     -- `max` has to compare two `HintBuffer`s
+    | some x, some y =>                          -- `max(champions, key=line)`: the first maximum, i.e.
+      if x < y then .ok { st with del := st.del.close t.label y i }   -- the addition buffer on a tie
+      else .ok { st with add := st.add.close t.label x i }
   | .minus, true => .ok { st with del := st.del.open t.label i }
   | .minus, false => .ok { st with del := st.del.append t.label i }
   | _, true => .ok { st with add := st.add.open t.label i }
@@ -303,6 +301,70 @@ def collectToks (toks : List (Nat × Str)) : Except Err (Sched × Sched) :=
 def collectHints (src : Str) : Except Err (Sched × Sched) :=
   collectToks (numberedTokens 1 (splitNL src))
 
+/-! ### Marker normalisation and trimming (first steps of `get_program`) -/
+
+/-- States of the scan for `(?i)#\s*paroxython\s*:\s*` (a deterministic scan is exact: `#` occurs
+only at the start of the pattern, and white space, the letters and `:` are disjoint classes). -/
+inductive NState
+  | idle
+  | hash               -- after `#`, skipping white space
+  | letters (k : Nat)  -- `k` letters of `paroxython` matched, 1 ≤ k ≤ 10
+  | after              -- after the ten letters and some white space
+  | tail               -- just after a match: the final `\s*` is still eating white space
+  deriving DecidableEq, Repr
+
+inductive NAct
+  | cont (s : NState)  -- the character joins the pending attempt
+  | reset              -- the pending attempt fails on this character (which cannot start a new one)
+  | hash               -- `#`: whatever was pending fails, a new attempt starts
+  | accept             -- `:` completes a match
+  | drop               -- white space eaten by the final `\s*`
+
+def pletters : Str := ['p', 'a', 'r', 'o', 'x', 'y', 't', 'h', 'o', 'n']
+
+/-- The `k`-th letter of `paroxython`, case-insensitively. -/
+def letterAt (k : Nat) (c : Char) : Bool :=
+  match pletters[k]? with
+  | some p => c.toLower == p
+  | none => false
+
+def nstep (st : NState) (c : Char) : NAct :=
+  if c = '#' then .hash
+  else match st with
+    | .idle => .reset
+    | .hash => if isSpaceRe c then .cont .hash else if letterAt 0 c then .cont (.letters 1) else .reset
+    | .letters k =>
+      if k < 10 then (if letterAt k c then .cont (.letters (k + 1)) else .reset)
+      else if c = ':' then .accept else if isSpaceRe c then .cont .after else .reset
+    | .after => if c = ':' then .accept else if isSpaceRe c then .cont .after else .reset
+    | .tail => if isSpaceRe c then .drop else .reset
+
+/-- `pend` is the text of the pending attempt (emitted unchanged if the attempt fails). -/
+def normGo : NState → Str → Str → Str
+  | _, pend, [] => pend
+  | st, pend, c :: t =>
+    match nstep st c with
+    | .cont s => normGo s (pend ++ [c]) t
+    | .reset => pend ++ c :: normGo .idle [] t
+    | .hash => pend ++ normGo .hash ['#'] t
+    | .accept => m14 ++ normGo .tail [] t
+    | .drop => normGo .tail [] t
+
+/-- `Cleanup.normalize_paroxython_comments(line)[0]` for a line without `\n`. -/
+def normLine (l : Str) : Str := normGo .idle [] l
+
+/-- What `\A(\s*\n)+` leaves of the leading white space `w`: what follows its last newline. -/
+def keepAfterLastNL (w : Str) : Str :=
+  if w.contains '\n' then (w.reverse.takeWhile (· != '\n')).reverse else w
+
+/-- `regex.sub(r"\A(\s*\n)+|\s+\Z", "", text)`: leading blank lines and trailing white space go. -/
+def trimEnds (s : Str) : Str :=
+  let lead := keepAfterLastNL (s.takeWhile isSpaceRe) ++ s.dropWhile isSpaceRe
+  (lead.reverse.dropWhile isSpaceRe).reverse
+
+/-- The text `get_program` numbers the hints on. -/
+def prepare (src : Str) : Str := trimEnds (joinNL ((splitNL src).map normLine))
+
 /-! ### `get_program` -/
 
 structure Program where
@@ -311,13 +373,17 @@ structure Program where
   deletion : Sched
   deriving Repr, DecidableEq
 
-def getProgram (src : Str) : Except Err Program :=
-  match centrifugate src with
+/-- `get_program` from the prepared text on: centrifugate, collect, remove. -/
+def getProgramFrom (text : Str) : Except Err Program :=
+  match centrifugate text with
   | .error e => .error e
   | .ok c =>
     match collectHints c with
     | .error e => .error e
     | .ok (a, d) => .ok ⟨removeHints c, a, d⟩
+
+/-- `get_program(source)`. -/
+def getProgram (src : Str) : Except Err Program := getProgramFrom (prepare src)
 
 /-- Number of lines of a listing (`text.count("\n") + 1`). -/
 def lineCount (s : Str) : Nat := (splitNL s).length
